@@ -50,6 +50,10 @@ pub fn spawn_local<F>(future: F) -> JoinHandle<F::Output>
 where
     F: Future + 'static,
 {
+    #[cfg(feature = "slawlor_ractor_verif")]
+    if let Some(gate) = crate::verif::current_gate() {
+        return tokio::task::spawn_local(crate::verif::Gated::new(gate, None, future));
+    }
     tokio::task::spawn_local(future)
 }
 
@@ -59,6 +63,10 @@ where
     F: Future + Send + 'static,
     F::Output: Send + 'static,
 {
+    #[cfg(feature = "slawlor_ractor_verif")]
+    if let Some(gate) = crate::verif::current_gate() {
+        return tokio::task::spawn(crate::verif::Gated::new(gate, name, future));
+    }
     #[cfg(tokio_unstable)]
     {
         let mut builder = tokio::task::Builder::new();
